@@ -22,14 +22,43 @@ KW_PREFIXES = ['note', 'notes', 'indexes', 'index', 'ref', 'refs', 'table', 'tab
 class Namer:
     """unique identifiers in several flavours"""
 
-    def __init__(self, rng, flavours=('bare',), override=None):
+    def __init__(self, rng, flavours=('bare',), override=None, coin=False):
         self.rng = rng
         self.n = 0
         self.flavours = flavours
         self.override = override or {}    # prefix -> flavour (wins over the caller's choice)
         self.reserved_used = set()
+        self.coin = coin
+        self.issued = {}
+        self.all_issued = set()
+        self.classes = set()
+
+    COIN_PREFIXES = ('t', 'c', 'e', 'ei', 'al', 'g', 'sn', 'r', 's', 'p')
 
     def __call__(self, prefix, flavour=None):
+        name = self._make(prefix, flavour)
+        if self.coin and prefix in self.COIN_PREFIXES and name not in RESERVED and name.lower() not in RESERVED:
+            # coincidence classes (learned from the fourth mutation round): names of a particular length, names that differ
+            # from another one only in letter case, an element called like the default schema
+            r = self.rng.random()
+            prev = self.issued.setdefault(prefix, [])
+            if r < 0.02:
+                k = self.rng.choice([61, 64, 70, 126, 129, 200, 260])
+                name = name[:-1] + '_' + 'L' * k + name[-1]
+                self.classes.add('long-name')
+            elif r < 0.04 and prev:
+                cand = self.rng.choice(prev).swapcase()
+                if cand not in self.all_issued and cand.swapcase() != cand:
+                    name = cand
+                    self.classes.add('case-twin')
+            elif r < 0.05 and prefix in ('t', 'e', 'g', 'c') and 'public' not in self.all_issued:
+                name = 'public'
+                self.classes.add('named-public')
+            prev.append(name)
+        self.all_issued.add(name)
+        return name
+
+    def _make(self, prefix, flavour=None):
         self.n += 1
         f = flavour or self.rng.choice(self.flavours)
         if prefix in self.override:
@@ -76,10 +105,11 @@ RICH_BITS = ["it's", 'say "hi"', 'a\\b', 'back`tick', '{x}', '{0}', '[y]', '# ha
 
 
 class Texts:
-    def __init__(self, rng, profile='plain'):
+    def __init__(self, rng, profile='plain', coin=False):
         self.rng = rng
         self.n = 0
         self.profile = profile
+        self.coin = coin
 
     def line(self, tag='x'):
         self.n += 1
@@ -88,6 +118,10 @@ class Texts:
             words.append(self.rng.choice(PLAIN_WORDS))
         if self.profile == 'rich' and self.rng.random() < 0.6:
             words.insert(self.rng.randint(0, len(words)), self.rng.choice(RICH_BITS))
+        if self.coin and self.rng.random() < 0.02:
+            words.append('long' + 'L' * self.rng.choice([60, 70, 100, 130, 260, 300]))     # texts of a particular length
+        if self.coin and tag != 'd' and self.rng.random() < 0.02:      # (not in string defaults: SQL writes them unquoted)
+            words.append(self.rng.choice(['a, b', 'x,  y', '{name}', '{text}', 'end,']))
         return ' '.join(words)
 
     def note(self, tag='n', multiline_p=0.3):
@@ -122,7 +156,8 @@ def rand_default(rng, tx, kinds=None):
     if kind == 'int':
         return am.Default('int', rng.choice([0, 1, 7, 42, 1000000, 12345678901234567890]))
     if kind == 'float':
-        return am.Default('float', rng.choice([0.0, 0.5, 1.25, 3.14, 100.0, 12345.678, 3.14159265, 2.718281828459, 0.0001]))
+        return am.Default('float', rng.choice([0.0, 0.5, 1.25, 3.14, 100.0, 12345.678, 3.14159265, 2.718281828459, 0.0001,
+                                                0.30000000000000004, 1.0000000000000002, 123456789.12345679]))
     if kind == 'bool':
         return am.Default('bool', rng.random() < 0.5)
     if kind == 'null':
@@ -150,11 +185,13 @@ def rand_type(rng, nm, doc, enum_p=0.25):
 
 
 def random_doc(rng, size='small', text_profile='plain', flavours=CORE_FLAVOURS, props=False,
-               comments=True, ml_small_notes=True, override=None):
-    """ml_small_notes: allow multi-line notes on columns / indexes / enum items"""
-    nm = Namer(rng, flavours, override)
+               comments=True, ml_small_notes=True, override=None, coin=True, kwstrings=False):
+    """ml_small_notes: allow multi-line notes on columns / indexes / enum items
+    coin: coincidence classes (long / case-twin / 'public' names, long texts, expression == column name, mirrored inline
+    references, sticky notes with equal names); kwstrings: string defaults spelled like a keyword ('true', 'null')"""
+    nm = Namer(rng, flavours, override, coin=coin)
     small_ml = 0.3 if ml_small_notes else 0.0
-    tx = Texts(rng, text_profile)
+    tx = Texts(rng, text_profile, coin=coin)
     doc = am.Doc(allow_properties=props)
     big = {'tiny': 1, 'small': 2, 'medium': 4, 'large': 8}[size]
     schemas = ['public', 'public', 'public', nm('s'), nm('s')]
@@ -182,7 +219,7 @@ def random_doc(rng, size='small', text_profile='plain', flavours=CORE_FLAVOURS, 
         t.comment = maybe(0.3 if comments else 0, lambda: tx.comment())
         if props:
             for _ in range(rng.choice([0, 0, 1, 2, 3])):
-                t.props.append((nm('pk'), tx.line('pv')))
+                t.props.append((nm('pk'), tx.line('pv') if rng.random() > 0.08 else rng.choice(['true', 'false', 'null', 'NULL', '42', '4.5'])))
         pk_layout = rng.choice(['none', 'single', 'single', 'composite', 'index'])
         ncols = rng.randint(1, 2 + big)
         if pk_layout == 'composite':
@@ -202,17 +239,27 @@ def random_doc(rng, size='small', text_profile='plain', flavours=CORE_FLAVOURS, 
             c.explicit_null = (not c.not_null) and rng.random() < 0.1
             c.autoinc = rng.random() < 0.15
             c.default = maybe(0.4, lambda: rand_default(rng, tx))
+            if kwstrings and rng.random() < 0.05:
+                c.default = am.Default('str', rng.choice(['true', 'false', 'null', 'True', 'NULL', 'Null', 'FALSE']))
+            if coin and c.default is not None and c.default.kind == 'str' and rng.random() < 0.05:
+                c.default = am.Default('str', rng.choice(['42', '4.5', '0', '-1', '1e5', 'now()', c.name if "'" not in c.name and '\\' not in c.name else 'x']))
             c.note = maybe(0.3, lambda: tx.note('cn', small_ml))
             c.comment = maybe(0.2 if comments else 0, lambda: tx.comment())
             if props:
                 for _ in range(rng.choice([0, 0, 1, 2])):
-                    c.props.append((nm('ck'), tx.line('cv')))
+                    c.props.append((nm('ck'), tx.line('cv') if rng.random() > 0.08 else rng.choice(['true', 'false', 'null', 'NULL', '42', '4.5'])))
             t.columns.append(c)
         for _ in range(rng.choice([0, 0, 1, 2, 3])):
             k = rng.randint(1, min(3, len(t.columns)))
             subj = [('col', c.name) for c in rng.sample(t.columns, k)]
             if rng.random() < 0.3:
                 subj.insert(rng.randint(0, len(subj)), ('expr', rng.choice(['id*2', 'lower(name)', 'a + b', "coalesce(x, 'y')"])))
+            if coin and rng.random() < 0.06:
+                # an expression whose text is spelled exactly like a column of the table
+                cn = rng.choice(t.columns).name
+                if '`' not in cn and '\n' not in cn:
+                    subj.insert(rng.randint(0, len(subj)), ('expr', cn))
+                    doc.classes.add('expr-equals-column-name')
             ix = am.Index(subj)
             ix.name = maybe(0.4, lambda: tx.line('ixn'))
             ix.unique = rng.random() < 0.3
@@ -254,7 +301,18 @@ def random_doc(rng, size='small', text_profile='plain', flavours=CORE_FLAVOURS, 
                         if key in used or (ti == t2 and c2 == c.name):
                             continue
                         used.add(key)
-                        c.inline_refs.append(am.InlineRef(rng.choice(['>', '<', '-']), t2, c2))
+                        kind = rng.choice(['>', '<', '-'])
+                        c.inline_refs.append(am.InlineRef(kind, t2, c2))
+                        if coin and rng.random() < 0.06 and (ti != t2):
+                            # the same relationship declared a second time from the other end (mirrored) or with another
+                            # kind from the same end: two references that lead to the same FOREIGN KEY clause
+                            if rng.random() < 0.5:
+                                mk = {'>': '<', '<': '>', '-': '-'}[kind]
+                                tc = next(x for x in doc.tables[t2].columns if x.name == c2)
+                                tc.inline_refs.append(am.InlineRef(mk, ti, c.name))
+                            else:
+                                c.inline_refs.append(am.InlineRef(rng.choice([k_ for k_ in ('>', '<', '-') if k_ != kind]), t2, c2))
+                            doc.classes.add('mirrored-inline-ref')
                         break
     for _ in range(rng.randint(0, 1 + big)):
         k = rng.choice([1, 1, 1, 2, 3])
@@ -284,6 +342,9 @@ def random_doc(rng, size='small', text_profile='plain', flavours=CORE_FLAVOURS, 
         doc.groups.append(g)
     for _ in range(rng.choice([0, 0, 1, 2])):
         doc.stickies.append(am.Sticky(nm('sn'), tx.note('st', 0.5) if rng.random() > 0.04 else ''))
+    if coin and doc.stickies and rng.random() < 0.1:
+        doc.stickies.append(am.Sticky(doc.stickies[0].name, tx.note('st', 0.5)))      # two sticky notes may share a name
+        doc.classes.add('sticky-same-name')
     if rng.random() < 0.5:
         p = am.Project(nm('p'))
         for _ in range(rng.randint(0, 3)):
@@ -293,12 +354,13 @@ def random_doc(rng, size='small', text_profile='plain', flavours=CORE_FLAVOURS, 
         doc.project = p
     doc.default_order()
     rng.shuffle(doc.order)
+    doc.classes |= nm.classes
     return doc
 
 
 def features(doc):
     """coarse feature vector (for 'non-trivial' and class counters)"""
-    f = set()
+    f = set(getattr(doc, 'classes', ()))
     if doc.enums:
         f.add('enum')
     if doc.refs:
